@@ -131,3 +131,34 @@ PRESERVING += [
     ('p6-binding-factory-loop', ['C01'], [(A, ADD_SUB, "def alu_op(funct3, funct7):\n    fields = {}\n    for k, v in (('funct3', funct3), ('funct7', funct7)):\n        fields[k] = v\n"
                                                         "    return partial(r_type, opcode=0b0110011, **fields)\n\n\nADD        = alu_op(0b000, 0b0000000)\nSUB        = alu_op(0b000, 0b0100000)\n")]),
 ]
+
+
+# ---- round 7: an operand token of an accepted line may not be silently ignored (C06 R6.ignored-operand) ---------------------------------
+CI_UNPACK = "    elif head in CI_TYPE_INSTRUCTIONS:\n        name, rd_rs1, *imm = tokens\n"
+
+
+def sp_form(base_target, check):
+    """`c.lwsp rd, offset(sp)`: the base token bound to `base_target`, `check` = statements that look at it (or nothing)."""
+    return ("    elif head in CI_TYPE_INSTRUCTIONS:\n        if head == 'c.lwsp' and len(tokens) == 6 and tokens[3] == '(':\n"
+            "            name, rd_rs1, offset, _, " + base_target + ", _ = tokens\n" + check + "            imm = [offset]\n"
+            "        else:\n            name, rd_rs1, *imm = tokens\n")
+
+
+SP_RAISE = "                raise AssemblerError('c.lwsp is relative to sp', line)\n"
+PRESERVING += [
+    # (extensions of the accepted syntax, not refactorings: the base register is validated, so nothing unencodable is accepted)
+    ('p7-sp-form-base-literal-set', ['C01', 'C02', 'C06', 'C13'], [(A, CI_UNPACK, sp_form('base', "            if base.lower() not in ('sp', 'x2'):\n" + SP_RAISE))]),
+    ('p7-sp-form-base-lookup', ['C01', 'C02', 'C06', 'C13'], [(A, CI_UNPACK, sp_form('base', "            if lookup_register(base) != 2:\n" + SP_RAISE))]),
+]
+BREAKING += [
+    # seeded C06r7m1: "sp is implied", the base token is dropped
+    ('c7-sp-form-base-ignored', ['C06'], [(A, CI_UNPACK, sp_form('_', ""))]),
+    # any register is accepted as the base and then dropped
+    ('c7-sp-form-base-any-register', ['C06'], [(A, CI_UNPACK, sp_form('base', "            if base not in REGISTERS:\n" + SP_RAISE))]),
+    # the literal set admits a different register
+    ('c7-sp-form-base-two-registers', ['C06'], [(A, CI_UNPACK, sp_form('base', "            if base not in ('sp', 'x2', 'x8'):\n" + SP_RAISE))]),
+]
+UNDECIDED += [
+    # the base token is handed to a predicate the token flow cannot interpret: no verdict
+    ('u7-sp-form-base-opaque-test', ['C06'], [(A, CI_UNPACK, sp_form('base', "            if not str.startswith(base, 's'):\n" + SP_RAISE))]),
+]
